@@ -2,7 +2,7 @@
 # usage: bin/sweep.sh <tier> <seed>... ; runs every claimed check at each seed, prints one line per run.
 # Evidence files are rewritten by each run (last seed wins); re-run seed 1 afterwards if the evidence is to be committed.
 tier=$1; shift
-cd /verif
+cd "$(dirname "$0")/.."
 for s in "$@"; do
  for i in 01 02 03 04 05 06 07 08 09 10 11 12 13 14 15 16 17 18 19 20; do
   out=$(VERIF_SEED=$s ./bin/vcheck run C$i --tier $tier 2>&1); rc=$?
